@@ -217,6 +217,84 @@ def member_chain(n):
 
 # --------------------------------------------------------------------------
 
+def var_roles(fd):
+    """{'params': [names by index], 'locals': {'<ctype>#<ordinal>': name}} of a function record."""
+    params = [p["name"] for p in fd["params"]]
+    decls = {}
+    for n in walk(fd["body"]):
+        if n["k"] == "DeclStmt":
+            for d in n["decls"]:
+                decls.setdefault(d["lid"], (d.get("ct", d["t"]), d["name"]))
+    count = {}
+    locs = {}
+    for lid in sorted(decls):
+        ct, nm = decls[lid]
+        k = count.get(ct, 0)
+        count[ct] = k + 1
+        locs["%s#%d" % (ct, k)] = nm
+    return {"params": params, "locals": locs}
+
+
+def _load_names():
+    p = os.path.join(VERIF, "spec", "t_names.json")
+    if os.path.exists(p):
+        return json.load(open(p))
+    return {}
+
+
+NAMES = None
+
+
+def normalise_names(fd, unit):
+    """Rename parameters/locals of a function back to the reference names of spec/t_names.json (by role)."""
+    global NAMES
+    if NAMES is None:
+        NAMES = _load_names()
+    ref = NAMES.get("%s:%s" % (unit, fd["name"]))
+    if not ref:
+        return
+    cur = var_roles(fd)
+    ren_p = {}
+    if len(cur["params"]) == len(ref["params"]):
+        for i, (a, b) in enumerate(zip(cur["params"], ref["params"])):
+            if a != b:
+                ren_p[i] = b
+    # locals by role; only when the multiset of roles is unchanged (otherwise declarations were added/removed)
+    ren_l = {}
+    if set(cur["locals"]) == set(ref["locals"]):
+        decls = {}
+        for n in walk(fd["body"]):
+            if n["k"] == "DeclStmt":
+                for d in n["decls"]:
+                    decls.setdefault(d["lid"], d)
+        count = {}
+        for lid in sorted(decls):
+            d = decls[lid]
+            ct = d.get("ct", d["t"])
+            k = count.get(ct, 0)
+            count[ct] = k + 1
+            want = ref["locals"]["%s#%d" % (ct, k)]
+            if d["name"] != want:
+                ren_l[lid] = want
+    if not ren_p and not ren_l:
+        return
+    # a renaming must not collide with another variable's name
+    taken = set(cur["params"]) | set(cur["locals"].values())
+    for i, b in ren_p.items():
+        fd["params"][i]["name"] = b
+    for n in walk(fd["body"]):
+        if n["k"] == "DeclRefExpr":
+            if n.get("dk") == "param" and n.get("idx") in ren_p:
+                n["name"] = ren_p[n["idx"]]
+            elif n.get("dk") in ("local", "slocal") and n.get("lid") in ren_l:
+                n["name"] = ren_l[n["lid"]]
+        elif n["k"] == "DeclStmt":
+            for d in n["decls"]:
+                if d["lid"] in ren_l:
+                    d["name"] = ren_l[d["lid"]]
+    fd["renamed"] = True
+
+
 class Block:
     __slots__ = ("id", "elems", "roots", "term", "termk", "rawcond", "cond", "succs", "psuccs",
                  "noreturn", "label", "labelk", "preds")
@@ -377,6 +455,7 @@ class Program:
             for dc in d["decls"]:
                 self.decls.setdefault(dc["name"], dc)
             for fd in d["functions"]:
+                normalise_names(fd, u)
                 f = Func(fd, u)
                 self.funcs[(u, f.name)] = f
                 lst = self.by_name.setdefault(f.name, [])
